@@ -1,45 +1,5 @@
-// ---- prelude/error.rs: error types (shadowing the crate's names) ------------------------
-#[verifier::external_body]
-pub struct Cow { _p: () }
-impl From<&'static str> for Cow { #[verifier::external_body] fn from(s: &'static str) -> Cow { unimplemented!() } }
-impl From<String> for Cow { #[verifier::external_body] fn from(s: String) -> Cow { unimplemented!() } }
-/// R5: `format!(..)` message text is dropped; the value is an opaque String
-#[verifier::external_body]
-pub fn fmt_dropped() -> String { unimplemented!() }
-
-#[verifier::external_body]
-pub struct IOError { _p: () }
-impl IOError {
-    pub uninterp spec fn raw(&self) -> Option<i32>;
-    #[verifier::external_body]
-    pub fn raw_os_error(&self) -> (r: Option<i32>) ensures r == self.raw() { unimplemented!() }
-    #[verifier::external_body]
-    pub fn from_raw_os_error(e: i32) -> (r: IOError) ensures r.raw() == Some(e) { unimplemented!() }
-}
-
-#[derive(PartialEq, Eq, Clone, Copy, Structural)]
-pub struct Errno { pub raw: i32 }
-impl Errno {
-    pub const EXIST: Errno = Errno { raw: libc::EEXIST };
-    pub const BADF: Errno = Errno { raw: libc::EBADF };
-    pub const NAMETOOLONG: Errno = Errno { raw: 36 };
-    pub const NOSYS: Errno = Errno { raw: libc::ENOSYS };
-    pub const INVAL: Errno = Errno { raw: libc::EINVAL };
-    pub const AGAIN: Errno = Errno { raw: libc::EAGAIN };
-    pub const XDEV: Errno = Errno { raw: libc::EXDEV };
-    pub const NOENT: Errno = Errno { raw: libc::ENOENT };
-    pub fn raw_os_error(self) -> (r: i32) ensures r == self.raw { self.raw }
-    pub fn from_raw_os_error(e: i32) -> (r: Errno) ensures r.raw == e { Errno { raw: e } }
-}
-impl vstd::std_specs::convert::FromSpecImpl<Errno> for IOError {
-    open spec fn obeys_from_spec() -> bool { false }
-    uninterp spec fn from_spec(e: Errno) -> IOError;
-}
-impl From<Errno> for IOError {
-    #[verifier::external_body]
-    fn from(e: Errno) -> (r: IOError) ensures r.raw() == Some(e.raw) { unimplemented!() }
-}
-
+// ---- prelude/error.rs: the crate's error types (shadowing the crate's names) -------------
+//@include prelude/errbase.rs
 #[verifier::external_body]
 pub struct SymlinkStackError { _p: () }
 
